@@ -1,3 +1,51 @@
-(* Property C12 — statements only (filled in as the proofs land). *)
+(* Property C12 — statements only.  Each theorem is closed by [exact] of a lemma proved in the
+   C12/ files; Print Assumptions is evaluated by ./check on every run.
+   round32 / widen32 (IEEE binary64 -> binary32 -> binary64 on bit patterns) are universally
+   quantified: the theorems hold for whatever the platform's conversion is. *)
 From Coq Require Import List ZArith.
-From TskVerif Require Import C12.Model.
+From TskVerif Require Import Base.Common C12.Model C12.BytesProofs C12.RoundTripProofs C12.ExhaustProofs.
+Import ListNotations.
+Open Scope Z_scope.
+
+(* (d) struct's little-endian integers: every width, signed and unsigned, in range *)
+Theorem le_int_roundtrip : forall f z, in_range f z = true ->
+  signed_of f (le_val (le_bytes (isize f) (z mod imod f))) = z /\
+  length (le_bytes (isize f) (z mod imod f)) = isize f.
+Proof. exact int_pack_unpack. Qed.
+
+Theorem int_out_of_range_is_rejected : forall round32 f z,
+  in_range f z = false -> pack_num round32 (BInt f) (VInt z) = EErr EStruct.
+Proof. exact int_out_of_range_rejected. Qed.
+
+(* (a) whatever encodes under an exhaust-free schema decodes to its normal form (defaults
+   filled, binary32 rounding, fixed-width truncation, NUL termination) and leaves the
+   following bytes alone *)
+Theorem struct_roundtrip : forall round32 widen32 s, rt_ok s = true ->
+  forall fuel v bs rest, encode round32 s v = EOk bs ->
+  decode widen32 fuel s (bs ++ rest) = DOk (norm round32 widen32 s v) rest.
+Proof. exact struct_roundtrip_gen. Qed.
+
+Theorem struct_roundtrip_row : forall round32 widen32 t v bs fuel,
+  rt_ok (t_schema t) = true ->
+  validate_and_encode round32 t v = EOk bs ->
+  (t_nullable t = true -> v <> VNull -> bs <> []) ->
+  decode_top widen32 fuel t bs = DOk (norm_top round32 widen32 t v) [].
+Proof. exact struct_roundtrip_top. Qed.
+
+(* findings: the property is false for the code that exists *)
+Theorem exhaust_zero_width_diverges_refuted : exists (t : top) (v : value),
+  validate_and_encode round32_impl t v = EOk [] /\
+  forall fuel buf, decode_top widen32_impl fuel t buf = DFuel.
+Proof. exact ExhaustProofs.exhaust_zero_width_diverges_refuted. Qed.
+
+Theorem exhaust_nontail_refuted : exists (t : top) (v : value) (bs : list Z),
+  validate_and_encode round32_impl t v = EOk bs /\
+  forall fuel, decode_top widen32_impl fuel t bs <> DOk (norm_top round32_impl widen32_impl t v) [].
+Proof. exact ExhaustProofs.exhaust_nontail_refuted. Qed.
+
+Theorem object_or_null_empty_refuted : exists (t : top) (v : value),
+  rt_ok (t_schema t) = true /\
+  validate_and_encode round32_impl t v = EOk [] /\
+  decode_top widen32_impl 5 t [] = DOk VNull [] /\
+  norm_top round32_impl widen32_impl t v <> VNull.
+Proof. exact objnull_empty_refuted. Qed.
